@@ -692,6 +692,53 @@ func c07Decrypt(c *Ctx, mk *ssa.Function, tr *an.Tracer) {
 			}
 		}
 	}
+	// resPQ.pq is a reply field like the nonces: a value that is not a product of two primes (zero makes SplitPQ
+	// divide by zero, a prime makes it search for ever) has to end the exchange with an error, so the SplitPQ call
+	// lies behind the not-prime edge of a primality test and behind a lower bound, both on the value it is given
+	if mk := c.P.Func(load.RootMod, "*MTProto", "makeAuthKey"); mk != nil {
+		n := 0
+		for _, cs := range an.CallsNamed(mk, load.MathPkg+".SplitPQ") {
+			if len(cs.Common.Args) != 1 {
+				continue
+			}
+			n++
+			pq := cs.Common.Args[0]
+			prime := an.DominatingGuard(mk, cs.Instr, func(cd *an.Cond) int {
+				if cd.Kind == "call:(*math/big.Int).ProbablyPrime" && cd.X == pq {
+					return cd.EdgeWhen(false).Succ
+				}
+				return -1
+			})
+			low := an.DominatingGuard(mk, cs.Instr, func(cd *an.Cond) int {
+				if cd.Kind != "cmp" || cd.X != pq {
+					return -1
+				}
+				k, ok := bigConst(cd.Y)
+				if !ok {
+					return -1
+				}
+				// the true successor is the one on which "pq Rel k" holds; we want the edge on which pq > 1
+				switch {
+				case cd.Rel == "<=" && k >= 1, cd.Rel == "<" && k >= 2:
+					return 1
+				case cd.Rel == ">" && k >= 1, cd.Rel == ">=" && k >= 2:
+					return 0
+				}
+				return -1
+			})
+			var missing []string
+			if !prime {
+				missing = append(missing, "no primality test of the value on the way to SplitPQ (a prime pq is searched for ever)")
+			}
+			if !low {
+				missing = append(missing, "no lower bound pq > 1 on the way to SplitPQ (0 and 1 divide by zero)")
+			}
+			r.Check(len(missing) == 0, "R07.G", sprintf("guard:resPQ.pq#%d", n), c.pos(cs.Pos()), "pq is split only when it can be: "+strings.Join(missing, "; "))
+		}
+		if n == 0 {
+			r.Undecide("R07.G", "guard:resPQ.pq", c.pos(mk.Pos()), "no SplitPQ call in makeAuthKey")
+		}
+	}
 	// "abandoned with an error": a recover() on the exchange path must not turn the panic into a normal return
 	// with the results as they stand (a nil error) - the deferred function has to store a non-nil error into the
 	// function's result on the way out of the recovered panic
@@ -826,4 +873,13 @@ func recoverReportsError(f *ssa.Function) (bool, string) {
 		return true, "no recover"
 	}
 	return true, ""
+}
+
+// bigConst: v is big.NewInt(k) for a constant k.
+func bigConst(v ssa.Value) (int64, bool) {
+	call, ok := v.(*ssa.Call)
+	if !ok || an.CalleeName(call.Common()) != "math/big.NewInt" || len(call.Call.Args) != 1 {
+		return 0, false
+	}
+	return an.ConstInt(call.Call.Args[0])
 }
